@@ -40,6 +40,13 @@ class Check:
         for a in required_actions:
             if a in r.coverage and r.coverage[a][0] == 0:
                 raise MachineryError("model %s: action %s never taken (vacuous model)" % (name, a))
+        if expect == "violation":
+            # negative control: the model with the defect switched on must be rejected by TLC,
+            # otherwise the invariant is vacuous
+            if r.error is None:
+                raise MachineryError("negative control %s raised no violation: the model property is vacuous" % name)
+            self.ev.cov["models"][-1]["result"] = "violation found, as expected (negative control)"
+            return r
         if r.error is not None and expect == "ok":
             path = os.path.join(self.outdir, "mc-%s.txt" % name)
             with open(path, "w") as f:
@@ -64,6 +71,10 @@ class Check:
             % (tag, len(cases), lines, t1 - t0, t2 - t1, len(failures)))
         self.ev.add_cases(cases, nontrivial)
         self.ev.cov["trace_lines"] += lines
+        # states of the trace specification visited by TLC while validating (one per accepted line)
+        self.ev.cov["trace_spec_states"] += vlib.validate.last_states
+        self.ev.cov["states"] += vlib.validate.last_states
+        self.ev.cov["transitions"] += vlib.validate.last_generated
         bad_cases = set(f[3] for f in failures)
         self.ev.cov["traces_validated_against_impl"] += len(cases) - len(bad_cases)
         # samples: first lines of the first trace
